@@ -31,6 +31,9 @@ func init() {
 				Rule: "logState.checkpoint/nextEntry/mirrorCheckpoint only under logState.mu (helper preconditions checked at call sites); Witness.meta/logs only under logsMu", Run: c14e},
 			{ID: "C14.f", Title: "WHO-SIGNS", Template: "T4", MinInst: 3,
 				Rule: "the witness signers s1/s2 sign notes only in updateCheckpoint, the mirror signer only in the add-entries commit, subtree signatures only in the sign-subtree handler", Run: c14f},
+			{ID: "C14.h", Title: "ERROR-DISCIPLINE", Template: "T12", MinInst: 12,
+				Rule: "every Backend/LockBackend call in package witness has its error bound and tested, or returned; the one listed exception is the best-effort Create of an empty checkpoint in PullLogList, whose outcome is decided by the Fetch that follows it",
+				Run:  c14h},
 			{ID: "C14.g", Title: "CHECKTREE-ARGS", Template: "T6", MinInst: 1,
 				Rule: "CheckTree(p=proof, t=newSize, th=newHash, n=recorded size, h=recorded hash) by parameter name", Run: c14g},
 		},
@@ -791,6 +794,44 @@ func c14g(c *Ctx) {
 			c.Bad(f.Name+" CheckTree operands", s.Pos(), strings.Join(p, "; "))
 		} else {
 			c.add(Result{Instance: f.Name + " CheckTree operands", Verdict: Discharged, Evals: 5, Sites: []string{s.Pos()}, Detail: "CheckTree(proof, newSize, newHash, known.N, known.Hash)"})
+		}
+	}
+}
+
+func c14h(c *Ctx) {
+	watched := []Callee{specUpload, specFetch, specDiscard, specLockFet, specLockRepl, specLockCrea, {pkgWitness, "", "fetchAndDecompress"}}
+	for _, f := range c.P.Funcs(pkgWitness) {
+		if f.Body == nil {
+			continue
+		}
+		for _, s := range f.Calls(watched...) {
+			c.touch(f)
+			inst := fmt.Sprintf("%s: %s at %s", f.Name, exprString(s.Call.Fun), s.Pos())
+			ok, how := errDiscipline(s)
+			if ok {
+				c.OK(inst, how, []string{s.Pos()})
+				continue
+			}
+			// exception: createErr := Lock.Create(...) immediately followed by a tested Lock.Fetch of the same key
+			if matchCallee(f.Info(), s.Call, specLockCrea) && f.Top().Name == "witness.(*Witness).PullLogList" {
+				g := f.Graph()
+				next := f.Calls(specLockFet)
+				follows := false
+				for _, n := range next {
+					if exprString(argByName(f.Info(), n.Call, "logID")) == exprString(argByName(f.Info(), s.Call, "logID")) {
+						if pt, _ := g.Reach(s.After(), Cut{}, atSite(n)); pt != nil {
+							if okN, _ := errDiscipline(n); okN {
+								follows = true
+							}
+						}
+					}
+				}
+				if follows {
+					c.OK(inst, "listed exception: best-effort Create, the tested Fetch of the same key decides", []string{s.Pos()})
+					continue
+				}
+			}
+			c.Bad(inst, s.Pos(), "a storage/lock error is not handled in the witness: "+how)
 		}
 	}
 }
